@@ -669,3 +669,34 @@ def under(value, conds):
         t, l = (c[2], c[1]) if len(c) == 3 and isinstance(c[0], int) else (c[0], c[1])
         value = flow._resolve_nested(value, t, l)
     return flow.simplify_term(value)
+
+
+def rebuilds(t, r, residual_ok=False):
+    """is `t` the value `r` taken apart and put together again unchanged?  `r` itself, or a selection on the presence of
+    r whose every branch re-wraps r's own payload in the same variant:  match r { Ok(v) => Ok(v), Err(e) => Err(e) },
+    `Ok(r?)` (the error branch then goes through From — identity only when the error types agree: residual_ok)."""
+    if t == r:
+        return True
+    if not (isinstance(t, tuple) and t and t[0] == "gamma"):
+        return False
+    seen = set()
+    for l, v in t[2]:
+        pt = flow.presence_test(t[1], l)
+        if pt is None or pt[1] is None or pt[0] != r:
+            return False
+        if not (isinstance(v, tuple) and len(v) == 4 and v[0] == "agg"):
+            # a nested selection on the same value is not expected after normalisation
+            return False
+        variant = v[2]
+        if pt[1]:
+            if variant not in ("Ok", "Some") or len(v[3]) != 1 or v[3][0][1] != ("payload", r):
+                return False
+        else:
+            if variant == "None" and not v[3]:
+                pass
+            elif variant == "Err" and len(v[3]) == 1 and (v[3][0][1] == ("errpayload", r) or (residual_ok and v[3][0][1] == ("residual", ("errpayload", r)))):
+                pass
+            else:
+                return False
+        seen.add(pt[1])
+    return seen == {True, False}
